@@ -88,6 +88,8 @@ struct PSession {
     binson_writer *ext_writer = nullptr; // optional long-lived writer for to_writer with op.c == 1 (owned by the engine)
     bool use_cb = true;                 // false: the application installs no token callback (the library's `cb == NULL` paths run; steps are then not counted)
     int guard_mode = 0;
+    size_t tail_room = 0;               // > 0: the message lies in a larger arena of the caller; this many bytes right behind it belong to the caller too (P_TO_WRITER with c == 2 writes there)
+    Block arena;
     int lead = 0;                       // the delivered buffer starts this many bytes (0..15) past an allocator boundary
     bool inited = false;                // at least one init call has been made (struct no longer pure garbage)
     bool dead = false;
@@ -140,6 +142,10 @@ struct WSession {
 };
 
 const char *err_name(uint32_t e);
+// auxiliary documents {"a":<container>,"c":2} for W_TO_WRITER (variant = op.a / 5 % AUX_DOCS): what parser_to_writer copies
+static const int AUX_DOCS = 6;
+const Bytes &aux_doc(int variant);
+Bytes aux_container(int variant);      // the bytes of the container under "a"
 bool is_advancing(int code);
 bool is_restart(int code);
 
